@@ -781,7 +781,7 @@ class coverpoint(object):
                         ib = self.ignore_bins[ib_name]
                         if isinstance(ib, bin):
                             for r in ib.range_l:
-                                if isinstance(r, (dict,tuple)):
+                                if isinstance(r, (list,tuple)):
                                     exclude_bins.add_range(r[0], r[1])
                                 else:
                                     exclude_bins.add_value(r)
@@ -796,7 +796,7 @@ class coverpoint(object):
                         ib = self.illegal_bins[ib_name]
                         if isinstance(ib, bin):
                             for r in ib.range_l:
-                                if isinstance(r, (dict,tuple)):
+                                if isinstance(r, (list,tuple)):
                                     exclude_bins.add_range(r[0], r[1])
                                 else:
                                     exclude_bins.add_value(r)
